@@ -6,8 +6,8 @@ spec : specs/kv/KVDefs.tla  PendingAt / Overlay (pending entries appear at versi
 MC   : BadgerKV exhaustive (2 transactions, own writes, split iterators); KVIterGen invariants
        Theorems / IterGetAgree on every generated case
 bind : (a) exhaustive in the bound: every store of <= 3 snapshot keys (value or tombstone) x every
-       sequence of <= 2 (quick) / 3 (thorough) pending operations (Set, Delete, SetEntry with user
-       meta + expiry + discard flag) over the 3 keys x every iterator option record in
+       sequence of <= 2 pending operations (Set, Delete, SetEntry with user meta + expiry + discard
+       flag; thorough: also <= 3 of Set / Delete) over the 3 keys x every iterator option record in
        {fwd, rev} x {AllVersions} x SinceTs in {0, 1, readTs} x seek keys x {no prefix, opt.Prefix,
        ValidForPrefix}: replayed on a real transaction (snapshot placed by ordinary commits, in the
        memtable / flushed once / flushed per commit), Get of every key and every iterator sequence
@@ -34,20 +34,28 @@ def body(c):
     kc = K.key_consts(tab)
     sk = [1, 2, 3]
     queries = K.query_set(seeks=[0, 1, 2, 3, 4], sinces=[0, 1, 3], prefixes=[1, 2])
-    cons = dict(kc, StoreKeys=K.tla_set(sk), TsSet="1..3", Kinds='{"val", "del"}', MaxVersions="3", Contiguous="TRUE",
-                OnePerKey="TRUE", ReadTs="0", Now="5", PendKeys=K.tla_set(sk), PendKinds='{"val", "del", "meta"}',
-                MaxPend="2" if q else "3", Queries=queries)
-    groups, ncases = K.gen_store(c, "overlay-3keys", cons, workers=10 if q else 14, timeout=3000,
-                                 check_theorems=True)
-    nq = sum(len(r["q"]) for g in groups for r in g["runs"])
-    c.cov["overlay_cases"] = {"snapshots": len(groups), "snapshot_x_pending": ncases, "predicted_iterator_sequences": nq,
-                              "max_pending_ops": int(cons["MaxPend"]), "queries_per_case": len(groups[0]["runs"][0]["q"])}
-    stats = {}
-    K.replay(c, groups, "default", c.seed, "overlay-3keys", keys=tab, mode="store", nproc=min(vlib.NCPU, len(groups)),
-             collect=stats, timeout=2400)
+    plans = [("overlay-3keys-pend2", '{"val", "del", "meta"}', "2")]
     if not q:
-        K.replay(c, groups, "vlog+zstd", c.seed, "overlay-3keys", keys=tab, mode="store", nproc=min(vlib.NCPU, len(groups)),
-                 collect=stats, timeout=2400)
+        plans.append(("overlay-3keys-pend3", '{"val", "del"}', "3"))
+    groups, ncases, nq = [], 0, 0
+    stats = {}
+    maxpend = 0
+    for name, kinds, mp in plans:
+        cons = dict(kc, StoreKeys=K.tla_set(sk), TsSet="1..3", Kinds='{"val", "del"}', MaxVersions="3", Contiguous="TRUE",
+                    OnePerKey="TRUE", ReadTs="0", Now="5", PendKeys=K.tla_set(sk), PendKinds=kinds, MaxPend=mp, Queries=queries)
+        g, n_ = K.gen_store(c, name, cons, workers=10 if q else 14, timeout=4000, check_theorems=True)
+        nq_ = sum(len(r["q"]) for x in g for r in x["runs"])
+        c.cov.setdefault("overlay_cases", []).append(
+            {"plan": name, "snapshots": len(g), "snapshot_x_pending": n_, "predicted_iterator_sequences": nq_,
+             "max_pending_ops": int(mp), "pending_kinds": kinds, "queries_per_case": len(g[0]["runs"][0]["q"])})
+        K.replay(c, g, "default", c.seed, name, keys=tab, mode="store", nproc=min(vlib.NCPU, len(g)), collect=stats, timeout=6000)
+        if not q:
+            K.replay(c, g, "vlog+zstd", c.seed, name, keys=tab, mode="store", nproc=min(vlib.NCPU, len(g)), collect=stats, timeout=6000)
+        groups += g
+        ncases += n_
+        nq += nq_
+        maxpend = max(maxpend, int(mp))
+    cons = {"MaxPend": str(maxpend)}
     c.cov["overlay_replay"] = stats
     if stats.get("query", 0) < nq or stats.get("invisible", 0) == 0:
         raise vlib.Inconclusive("overlay replay executed %s iterator checks for %d predictions" % (stats.get("query"), nq))
@@ -75,7 +83,7 @@ def body(c):
     keys = set(json_key(g, r) for g in groups for r in g["runs"] if r["pend"])
     c.add_cases(nq + len(sims), keys | set(K.hist_key(h) for h, o in zip(sims, owns) if o > 0), traces=ncases * 3 + len(sims))
     c.cov["rule"] = ("overlay cases = every (snapshot, pending-operation sequence) KVIterGen enumerates in the bound "
-                     "(<= 3 snapshot keys, <= %s pending operations over 3 keys with 3 kinds); non-trivial = at least one "
+                     "(<= 3 snapshot keys; <= 2 pending operations of 3 kinds, and in the thorough tier <= %s of 2 kinds, over 3 keys); non-trivial = at least one "
                      "pending operation; evaluations = predicted iterator sequences + simulated histories; every case is "
                      "replayed under 3 placements of the snapshot" % cons["MaxPend"])
     c.cov["exhaustive"] = True
